@@ -315,7 +315,7 @@ theorem unsupported_is_null (op : BinOp) (a b : Value) (w : World)
 theorem unsupported_count :
     ((strictOps.flatMap fun op => typeNames.flatMap fun ta => typeNames.map fun tb => supported op ta tb).count false) = 460 ∧
     ((strictOps.flatMap fun op => typeNames.flatMap fun ta => typeNames.map fun tb => supported op ta tb).length) = 972 := by
-  decide
+  decide +kernel
 
 open HostImpl in
 /-- **booleans are not numbers** (F13): arithmetic on a boolean operand, on either side, and unary minus of a boolean,
@@ -400,5 +400,97 @@ theorem binding_wins_over_builtin {W : Type} (cfg : Config W) (g : Env) (n : Nam
     cases locals with
     | none => simp [lookupFunc, hg, hb]
     | some l => simp [lookupFunc, hg, hb, hl l rfl]
+
+/-! ## non-vacuity: the hypotheses are inhabited and the statements say something on concrete expressions -/
+
+section Examples
+
+/-- a blind host: the concrete operators of `HostImpl` on the empty heap -/
+def exHost : Host Trace where
+  truthy := fun v _ => HostImpl.truthy v {}
+  binop := fun op a b _ => HostImpl.binop op a b {}
+  neg := HostImpl.neg
+  lib := fun _ _ w => .ret (.ok .null) w
+  other := fun _ _ w => .ret (.ok .null) w
+  notCallable := fun _ w => w
+  logFailure := fun w => w
+  newArray := fun _ w => (.null, w)
+  builtin := builtinOf
+
+theorem exBlind : Blind exHost := ⟨fun _ _ _ => rfl, fun _ _ _ _ _ => rfl⟩
+
+def exCfg : Config Trace := { host := exHost, funs := fun _ => none, maxStatements := 0, builtins := true }
+
+/-- every function returns its second argument (`tr(tag, x)` is the logging identity) -/
+def exResult : Value → List Value → Value
+  | _, [_, x] => x
+  | _, _ => .null
+
+def tr (tag : String) (e : Expr) : Expr := .function (.user "tr") [.string tag, e]
+def trV : Value := .fn (.lib "tr")
+
+/-- globals that bind `tr`, and also the keywords `null` and `if` -/
+def exGlobals : Env := [(.user "tr", trV), (.user "null", .num 5), (.user "if", trV), (.user "len", .null)]
+def exState : State Trace := { globals := exGlobals, world := [(trV, [.str "earlier"])], count := 7 }
+
+/-- value and complete trace, or the error and the trace -/
+def run (e : Expr) : Sum (Value × Trace) (RtErr × Trace) :=
+  match evalExpr exCfg (traceCall exResult) none e exState with
+  | .ok v st => .inl (v, st.world)
+  | .err e st => .inr (e, st.world)
+  | .oof => .inr (.host "oof", [])
+
+/-- `tr('a', 0) && tr('b', 1)` is the left operand's value 0 (not `false`); `b` is never called -/
+example : run (.binary .and (tr "a" (.number 0)) (tr "b" (.number 1)))
+    = .inl (.num 0, [(trV, [.str "earlier"]), (trV, [.str "a", .num 0])]) := by decide
+
+/-- `tr('a', 2) && tr('b', 3)` is the right operand's value 3 (not `true`); a then b -/
+example : run (.binary .and (tr "a" (.number 2)) (tr "b" (.number 3)))
+    = .inl (.num 3, [(trV, [.str "earlier"]), (trV, [.str "a", .num 2]), (trV, [.str "b", .num 3])]) := by decide
+
+/-- `tr('a', 's') || tr('b', 3)` is 's'; b is never called; `tr('a', '') || tr('b', 3)` is 3 -/
+example : run (.binary .or (tr "a" (.string "s")) (tr "b" (.number 3)))
+    = .inl (.str "s", [(trV, [.str "earlier"]), (trV, [.str "a", .str "s"])]) := by decide
+example : run (.binary .or (tr "a" (.string "")) (tr "b" (.number 3)))
+    = .inl (.num 3, [(trV, [.str "earlier"]), (trV, [.str "a", .str ""]), (trV, [.str "b", .num 3])]) := by decide
+
+/-- `tr('a', 1) + tr('b', 2) * tr('c', 3)` = 7, calls in source order a, b, c (not in order of operator application) -/
+example : run (.binary .add (tr "a" (.number 1)) (.binary .mul (tr "b" (.number 2)) (tr "c" (.number 3))))
+    = .inl (.num 7, [(trV, [.str "earlier"]), (trV, [.str "a", .num 1]), (trV, [.str "b", .num 2]), (trV, [.str "c", .num 3])]) := by
+  decide +kernel
+
+/-- `if(tr('c', 0), tr('t', 1), tr('f', 2), tr('x', 3))` = 2 with calls c, f only — although a function is bound to the name `if` -/
+example : run (.function (.user "if") [tr "c" (.number 0), tr "t" (.number 1), tr "f" (.number 2), tr "x" (.number 3)])
+    = .inl (.num 2, [(trV, [.str "earlier"]), (trV, [.str "c", .num 0]), (trV, [.str "f", .num 2])]) := by decide
+
+/-- `nope(tr('a', 1), tr('b', 2))`: Undefined function, after both arguments were evaluated in order -/
+example : run (.function (.user "nope") [tr "a" (.number 1), tr "b" (.number 2)])
+    = .inr (.undefinedFunction (.user "nope"), [(trV, [.str "earlier"]), (trV, [.str "a", .num 1]), (trV, [.str "b", .num 2])]) := by
+  decide
+
+/-- `null` is the constant although a global of that name is 5; `'x' + null` stringifies it -/
+example : run (.binary .add (.string "x") (.variable (.user "null"))) = .inl (.str "xnull", [(trV, [.str "earlier"])]) := by decide
+
+/-- expression mode: `abs` resolves to `mathAbs`; `len` is bound (to null) in the globals, which wins: undefined -/
+example : lookupFunc exCfg none exGlobals (.user "abs") = some (.fn (.lib "mathAbs")) := by decide
+example : run (.function (.user "abs") [.number 1]) = .inl (.null, [(trV, [.str "earlier"]), (.fn (.lib "mathAbs"), [.num 1])]) := by
+  decide
+example : run (.function (.user "len") [tr "a" (.string "s")])
+    = .inr (.undefinedFunction (.user "len"), [(trV, [.str "earlier"]), (trV, [.str "a", .str "s"])]) := by decide
+
+/-- the hypotheses of `and_or_lazy` / `if_lazy` / `undefined_keeps_effects` / `alias_lookup` hold on these instances -/
+example : valueOf (ctxOf exCfg exResult none exGlobals) (tr "a" (.number 0)) = .ok (.num 0) := by decide
+example : valuesOf (ctxOf exCfg exResult none exGlobals) [tr "a" (.number 1), tr "b" (.number 2)] = .ok [.num 1, .num 2] := by decide
+example : lookupFunc exCfg none exGlobals (.user "nope") = none := by decide
+example : exGlobals.contains (.user "abs") = false ∧ ("abs", "mathAbs") ∈ documentedAliases := by decide
+
+/-- the operator table on concrete values: `'n=' + 2.5`, `true + 1` (null), `[] < 0` by type name ('array' < 'number') -/
+example : HostImpl.binop .add (.str "n=") (.num (5/2)) {} = .str "n=2.5" := by decide +kernel
+example : HostImpl.binop .add (.bool true) (.num 1) {} = .null := by decide
+example : HostImpl.binop .lt (.arr 0) (.num 0) {} = .bool true := by
+  simp [HostImpl.binop, HostImpl.compare, HostImpl.valueCompare, HostImpl.cmpOrd, HostImpl.typeName]
+example : supported .sub "datetime" "number" = false ∧ supported .add "datetime" "number" = true := by decide
+
+end Examples
 
 end C03
